@@ -26,6 +26,18 @@ Definition parse_substitution (src tgt : spath) : sum suberr (list string * subs
        | inr m => inr (path_segments src, mk_subst tgt m)
        end.
 
+(** [TypeSubstitutes::extend]: element by element, stops at the first rejected one *)
+Fixpoint extend_go (dr : derives_registry) (l : list (spath * spath)) (subs : substitutes)
+  : bstate * option suberr :=
+  match l with
+  | [] => (mk_bstate dr subs, None)
+  | (src, tgt) :: l' =>
+      match parse_substitution src tgt with
+      | inl e => (mk_bstate dr subs, Some e)
+      | inr (k, v) => extend_go dr l' (subs_insert subs k v)
+      end
+  end.
+
 Definition apply_op (st : bstate) (o : op) : bstate * option suberr :=
   let dr := b_dreg st in
   match o with
@@ -60,16 +72,7 @@ Definition apply_op (st : bstate) (o : op) : bstate * option suberr :=
   | OpSubExtend l =>
       (* the caller converts every target with [absolute_path] before the call *)
       if negb (forallb (fun p => is_absolute (snd p)) l) then (st, Some SExpectedAbsolutePath)
-      else
-        (fix go (l : list (spath * spath)) (subs : substitutes) : bstate * option suberr :=
-           match l with
-           | [] => (mk_bstate dr subs, None)
-           | (src, tgt) :: l' =>
-               match parse_substitution src tgt with
-               | inl e => (mk_bstate dr subs, Some e)
-               | inr (k, v) => go l' (subs_insert subs k v)
-               end
-           end) l (b_subs st)
+      else extend_go dr l (b_subs st)
   end.
 
 Definition run_ops (ops : list op) : bstate * list (option suberr) :=
